@@ -33,7 +33,7 @@ ASSUMPTIONS = [
 
 
 def budget(tier):
-    return dict(examples=150, seconds=40) if tier == "quick" else dict(examples=2500, seconds=440)
+    return dict(examples=150, seconds=40) if tier == "quick" else dict(examples=2500, seconds=400)
 
 
 # ------------------------------------------------------------------------------------------------ oracle
